@@ -1293,19 +1293,31 @@ type chainCfg struct {
 	L, rot int
 	layout int
 	sizes  []int
-	gmp    int // GOMAXPROCS of the worker process while it runs this configuration
-	maxPos int // topic positions in the criteria
+	gmp    int  // GOMAXPROCS of the worker process while it runs this configuration
+	maxPos int  // topic positions in the criteria
+	prod   bool // the production-size part (partProd) runs at this point of the sequence
 }
 
 func tierCfgs(tier string) []chainCfg {
 	if tier != "thorough" {
-		return []chainCfg{{16, 0, 0, []int{8, 16}, 2, 3}, {21, 5, 1, []int{16}, 2, 3}, {19, 2, 0, []int{8}, 2, 2}}
+		return []chainCfg{
+			{L: 16, rot: 0, layout: 0, sizes: []int{8, 16}, gmp: 2, maxPos: 3},
+			{L: 21, rot: 5, layout: 1, sizes: []int{16}, gmp: 2, maxPos: 3},
+			{L: 19, rot: 2, layout: 0, sizes: []int{8}, gmp: 2, maxPos: 2},
+		}
 	}
 	return []chainCfg{
-		{16, 0, 0, []int{8, 16}, 2, 3}, {27, 2, 0, []int{8, 16}, 2, 3}, {21, 5, 1, []int{16}, 2, 3}, {40, 6, 0, []int{16}, 2, 3},
-		{24, 3, 0, []int{8}, 2, 3}, {32, 7, 2, []int{16}, 2, 3}, {32, 5, 0, []int{8}, 2, 3}, {37, 1, 1, []int{16}, 2, 3},
+		{L: 16, rot: 0, layout: 0, sizes: []int{8, 16}, gmp: 2, maxPos: 3},
+		{L: 21, rot: 5, layout: 1, sizes: []int{16}, gmp: 2, maxPos: 3},
+		{L: 27, rot: 2, layout: 0, sizes: []int{8, 16}, gmp: 2, maxPos: 3},
+		{prod: true},
 		// auxiliary guard: the first configuration again with other degrees of real parallelism
-		{16, 0, 0, []int{8, 16}, 1, 2}, {16, 0, 0, []int{8, 16}, 4, 2},
+		{L: 16, rot: 0, layout: 0, sizes: []int{8, 16}, gmp: 1, maxPos: 2},
+		{L: 16, rot: 0, layout: 0, sizes: []int{8, 16}, gmp: 4, maxPos: 2},
+		{L: 32, rot: 7, layout: 2, sizes: []int{16}, gmp: 2, maxPos: 3},
+		{L: 40, rot: 6, layout: 0, sizes: []int{16}, gmp: 2, maxPos: 3},
+		{L: 24, rot: 3, layout: 0, sizes: []int{8}, gmp: 2, maxPos: 3},
+		{L: 37, rot: 1, layout: 1, sizes: []int{16}, gmp: 2, maxPos: 3},
 	}
 }
 
@@ -1375,6 +1387,14 @@ func part2(cfgs []chainCfg, deadline time.Time, shard, nshards int, col *collect
 	var capped atomic.Bool
 	jobBase := 0
 	for cfgi, cfg := range cfgs {
+		if time.Now().After(deadline) {
+			capped.Store(true)
+			break
+		}
+		if cfg.prod {
+			partProd(deadline, shard, nshards, col)
+			continue
+		}
 		runtime.GOMAXPROCS(cfg.gmp)
 		crits := allCriteria(cfg.maxPos)
 		ch := buildChain(cfg.L, cfg.rot, cfg.layout)
@@ -1522,7 +1542,7 @@ func part2(cfgs []chainCfg, deadline time.Time, shard, nshards int, col *collect
 		}
 	}
 	if capped.Load() {
-		col.res.Caps = append(col.res.Caps, "deadline reached before all (chain, size, progress, criteria) jobs were run")
+		col.res.Counters["capped_small_chains"] = 1
 	}
 	col.res.Counters["generator_bitset_refusals_worked_around"] += atomic.LoadInt64(&bitsetRefused)
 }
@@ -1598,9 +1618,6 @@ func prodRangePoints(L int) []int {
 // partProd: the production section size, thorough tier. Ranges: all pairs of the boundary points.
 func partProd(deadline time.Time, shard, nshards int, col *collector) {
 	runtime.GOMAXPROCS(2)
-	stop := make(chan struct{})
-	go watchdog(stop)
-	defer close(stop)
 	crits := allCriteria(2)
 	ch := buildProdChain()
 	states := prodStates(ch, col)
@@ -1684,7 +1701,7 @@ func partProd(deadline time.Time, shard, nshards int, col *collector) {
 		st.b.close()
 	}
 	if capped.Load() {
-		col.res.Caps = append(col.res.Caps, "deadline reached before all production-size jobs were run")
+		col.res.Counters["capped_production_size"] = 1
 	}
 }
 
@@ -1982,9 +1999,6 @@ func worker(shard, n int) {
 		traceFile = f
 	}
 	part2(tierCfgs(os.Getenv("VERIF_TIER")), deadline, shard, n, col)
-	if os.Getenv("VERIF_TIER") == "thorough" {
-		partProd(deadline, shard, n, col)
-	}
 	ev.WorkerDone(col.done())
 }
 
@@ -2006,10 +2020,16 @@ func TestCheck(t *testing.T) {
 		replay(d)
 		run.Finish()
 	}
+	t1 := time.Now()
 	part1()
+	run.Set("part1_wall_s", time.Since(t1).Seconds())
 	cfgs := tierCfgs(run.Tier)
 	var desc []string
 	for _, c := range cfgs {
+		if c.prod {
+			desc = append(desc, fmt.Sprintf("L=%d section size %d (production): 1 section by the generator, 2 sections by the real ChainIndexer/BloomIndexer; ranges = pairs of %d boundary points; topic-positions<=2", 2*prodSize+300, prodSize, len(prodRangePoints(0))))
+			continue
+		}
 		desc = append(desc, fmt.Sprintf("L=%d rot=%d layout=%d sizes=%v gomaxprocs=%d topic-positions<=%d criteria=%d", c.L, c.rot, c.layout, c.sizes, c.gmp, c.maxPos, len(allCriteria(c.maxPos))))
 	}
 	run.Set("chains", desc)
@@ -2030,6 +2050,19 @@ func TestCheck(t *testing.T) {
 		cmu.Unlock()
 	})
 	reportFound(results)
+	var capSmall, capProd int64
+	for _, r := range results {
+		if r != nil {
+			capSmall += r.Counters["capped_small_chains"]
+			capProd += r.Counters["capped_production_size"]
+		}
+	}
+	if capSmall > 0 {
+		run.Cap(fmt.Sprintf("deadline reached before all (chain, size, progress, criteria) jobs were run (%d of %d workers)", capSmall, nw))
+	}
+	if capProd > 0 {
+		run.Cap(fmt.Sprintf("deadline reached before all production-size jobs were run (%d of %d workers)", capProd, nw))
+	}
 	// a worker that died: the code under test crashed the process (a panic on one of the matcher's
 	// goroutines cannot be recovered by the caller). Find the query, report it.
 	var shards []int
